@@ -5,7 +5,7 @@ GaphQL types related to introspection queries.
 These should be present in all spec compliant servers.
 """
 import json
-from typing import Optional, Union
+from typing import Any, Optional, Union
 
 from .scalars import Boolean, String
 from .types import (
@@ -308,14 +308,43 @@ def _format_default_value(
 ) -> Optional[str]:
     if not input_value.has_default_value:
         return None
-    dv = input_value.default_value
-    if isinstance(dv, bool):
-        return str(dv).lower()
-    elif dv is None:
+    return _format_value(input_value.default_value, input_value.type)
+
+
+def _format_value(value: Any, type_: GraphQLType) -> str:
+    # GraphQL (not JSON) syntax: enum names, escaped strings, input objects.
+    if isinstance(type_, NonNullType):
+        type_ = type_.type
+    if value is None:
         return "null"
-    elif isinstance(dv, str):
-        return '"%s"' % dv
-    return json.dumps(dv)
+    if isinstance(type_, ListType):
+        if isinstance(value, (list, tuple)):
+            return "[%s]" % ", ".join(
+                _format_value(entry, type_.type) for entry in value
+            )
+        return _format_value(value, type_.type)
+    if isinstance(type_, InputObjectType):
+        return "{%s}" % ", ".join(
+            "%s: %s" % (f.name, _format_value(value[f.python_name], f.type))
+            for f in type_.fields
+            if f.python_name in value
+        )
+    if isinstance(type_, EnumType):
+        return type_.get_name(value)
+    if isinstance(type_, ScalarType):
+        value = type_.serialize(value)
+    if isinstance(value, bool):
+        return str(value).lower()
+    elif value is None:
+        return "null"
+    elif isinstance(value, str):
+        return '"%s"' % (
+            value.replace("\\", "\\\\")
+            .replace('"', '\\"')
+            .replace("\n", "\\n")
+            .replace("\r", "\\r")
+        )
+    return json.dumps(value)
 
 
 __InputValue__ = ObjectType(
